@@ -17,7 +17,7 @@ func ZZChainReplica(user, removed []bool) *Replica {
 		return nil
 	}
 	r.mode = types.RW
-	names := []string{"0", "1", "2", "3", "4", "5", "6", "7"}
+	names := []string{"0", "1", "2", "3", "4", "5", "6", "7", "8", "9", "10", "11", "12", "13", "14", "15"}
 	for i := range user {
 		if r.Snapshot(names[i], false, "t") != nil {
 			return nil
@@ -94,4 +94,68 @@ func ZZEntries(fs *zzfs.FS) int {
 		}
 	}
 	return n
+}
+
+
+// ZZCleanerServer: an open RW server whose replica holds len(user) snapshots; snapshot i
+// holds one block written just before it was taken (block i%2, value i+1), so every
+// snapshot has data of its own and the newest two own the live image.
+func ZZCleanerServer(user, removed []bool) (*Server, *Replica) {
+	r, err := zzOpenReplica()
+	if err != nil {
+		return nil, nil
+	}
+	r.mode = types.RW
+	names := []string{"0", "1", "2", "3", "4", "5", "6", "7", "8", "9", "10", "11", "12", "13", "14", "15"}
+	for i := range user {
+		buf := make([]byte, 4096)
+		buf[0] = byte(i + 1)
+		if _, err := r.WriteAt(buf, int64(i%2)*4096); err != nil {
+			return nil, nil
+		}
+		if r.Snapshot(names[i], false, "t") != nil {
+			return nil, nil
+		}
+	}
+	for i := range user {
+		d := r.diskData[GenerateSnapshotDiskName(names[i])]
+		d.UserCreated = user[i]
+		d.Removed = removed[i]
+	}
+	ActionChannel = make(chan string, 5)
+	s := &Server{Dir: zzDir, defaultSectorSize: 4096, MonitorChannel: make(chan struct{}), r: r}
+	return s, r
+}
+
+// ZZReadAll reads the whole live volume.
+func (r *Replica) ZZReadAll() []byte {
+	buf := make([]byte, zzSize)
+	r.ReadAt(buf, 0)
+	return buf
+}
+
+// ZZFold: what the sync agent's fold does: every block allocated in source is copied
+// over the same block of target.
+func (r *Replica) ZZFold(source, target string) {
+	var sb, tb *zzBlob
+	for i, d := range r.activeDiskData {
+		if d == nil {
+			continue
+		}
+		if d.Name == source {
+			sb, _ = r.volume.files[i].(*zzBlob)
+		}
+		if d.Name == target {
+			tb, _ = r.volume.files[i].(*zzBlob)
+		}
+	}
+	if sb == nil || tb == nil {
+		return
+	}
+	for b := 0; b < sb.blocks && b < tb.blocks; b++ {
+		if sb.present[b] {
+			copy(tb.data[b*4096:(b+1)*4096], sb.data[b*4096:(b+1)*4096])
+			tb.present[b] = true
+		}
+	}
 }
